@@ -17,7 +17,7 @@ ASSUME = ['reference interpreter calibrated against the spec-suite expectations 
           'table slots used by call_indirect are initialised and of the expected signature by construction (w2c2 performs no check)']
 
 FEAT = gen.Features(ops=gen.ALL_OPS, types=(I32, I64, F32, F64), control=True, calls=True, trace=True, stmts=True, globals_=True,
-                    max_depth=4)
+                    max_depth=4, dead_code=True)      # dead code too: calls / call_indirect whose immediates must still be decoded
 INTERESTING = ('call_depth>=3', 'call_mixed_args>=3', 'host_call_mixed_args>=3', 'host_call_not_first_import', 'call_indirect',
                'call_indirect_slot>0', 'call_indirect_to_import')
 
@@ -33,6 +33,8 @@ def nontrivial(m, script, model, meta):
         ev = model.call_ev[ci] if ci < len(model.call_ev) else frozenset()
         ci += 1
         classes = set(e for e in ev if e in INTERESTING)
+        if classes and meta.get('info', {}).get('static', {}).get('same_field_other_module') and any(c.startswith('host_call') for c in classes):
+            classes.add('host_call_with_same_field_imported_from_two_modules')
         if classes:
             fidx = fex[op[2]][1]
             out.append((f1.hx((repr(m.funcs[fidx - nimp].body), tuple(op[3]))), classes))
